@@ -9,6 +9,7 @@ Sub-checks
   index       EXHAUSTIVE: every int index in [-n-2, n+2] and every (start, stop, step) triple with
               in-range bounds and step in {None, +-1, +-2, +-3} for paths of n steps (n <= 4 quick, 6 thorough)
 """
+import math
 import pickle
 import itertools
 
@@ -32,14 +33,22 @@ RULE = ('T expressions / Paths of 0-6 steps over attribute (incl. dunder via T._
         'bool, Ellipsis, tuples incl. empty and one-element, frozensets, builtins, nested T), rooted at T, S and A. '
         'Constructed classes with floors: a slice carrying a builtin in a nested position (call argument, Path segment, '
         'member of a one-element / nested tuple or list, part of another slice); non-finite floats; literals beyond 1024 '
-        'characters / digits / items (str, bytes, int, tuple, list, dict, nested T); a plain list as a Path segment. '
+        'characters / digits / items (str, bytes, int, tuple, list, dict, nested T); a plain list as a Path segment; '
+        'a dict literal whose insertion order is not the sorted order of its keys (call argument, keyword value, index, '
+        'Path segment, member of a tuple / list / slice / another dict), compared ORDER-sensitively and evaluated on a '
+        'target whose callee / __getitem__ reports what it received; complex literals, with floors on those with a '
+        'non-finite part and on those Python itself spells with another sign of zero ((-0+1j), (1-0j), -1.5j). '
         'Non-trivial = >= 3 steps of >= 2 kinds, or a non-trivial literal (tuple, slice, quote, nested T, dunder, any '
         'constructed class). '
         'index sub-check: the finite domain of index/slice triples is enumerated completely.')
 ASSUMPTIONS = [
     'eval environment = {T, S, A, Path, Spec} + builtins',
-    'arithmetic steps, lambdas and complex numbers are outside the statement and not generated',
-    'non-finite floats are compared nan-aware (same repr, structurally equal operations, same outcome on the battery; a nan '
+    'arithmetic steps and lambdas are outside the statement and not generated',
+    'complex literals are generated with parts from {0.0, -0.0, 1.0, -1.5, 2.5, 1e20, inf, -inf, nan}; floats and complex parts '
+    'are compared with the sign of a zero (0.0 and -0.0 are different literals)',
+    'dict literals: two dicts are the same literal iff they hold the same (key, value) pairs IN THE SAME ORDER (type-exact, '
+    'nan-aware); the order is observable by the callee that receives the dict',
+    'non-finite floats and complex parts are compared nan-aware (same repr, structurally equal operations, same outcome on the battery; a nan '
     'key is found by identity only, so T[nan] misses on every battery target for the original and the rebuilt object alike)',
     'literal sizes stay below 4300 digits (int -> str conversion limit of CPython)',
     'out-of-range slicing is not claimed (out-of-range indexing is)',
@@ -62,9 +71,22 @@ DUNDERS = ['__class__', '__len__', '__dict__', '__x']
 #   ["rep", "tuple" | "list", [L..], n]  the container of the items, repeated n times
 #   ["drange", n]                        the dict {0: 0, 1: 1, .. n-1: n-1}
 #   ["Trep", root, steps, n]             the nested expression of the steps, repeated n times
+#   ["cx", re, im]                       the complex number complex(re, im); a part is a finite float or "inf" | "-inf" | "nan"
 # They keep recipes (and replay files) of the big-literal class small.
 NAN, INF = float('nan'), float('inf')      # one nan object per process: equality of steps holds for it by identity only
 NONFINITE = {'inf': INF, '-inf': -INF, 'nan': NAN}
+_CX = {}              # likewise one complex object per (re, im) and process (a nan part makes it unequal to its own copy)
+
+
+def _complex(state):
+    key = (repr(state[0]), repr(state[1]))       # (by spelling: 0.0 and -0.0 are equal, and the same dict key)
+    if key not in _CX:
+        _CX[key] = complex(*[NONFINITE[p] if isinstance(p, str) else float(p) for p in state[:2]])
+    return _CX[key]
+
+
+# (texpr's literal grammar has no complex: it goes through the grammar's extension point for property-specific literals)
+tx.LIT_CLASSES['c18-complex'] = (False, lambda items, state: _complex(state))
 LIMIT = 1024          # the size beyond which a shortened repr was observed (F80); classes 'long-*' lie beyond it
 
 
@@ -72,6 +94,8 @@ def expand_lit(r):
     tag = r[0]
     if tag == 'fnf':
         return ['f', NONFINITE[r[1]]]
+    if tag == 'cx':
+        return ['inst', 'c18-complex', [], [r[1], r[2]]]
     if tag == 'srep':
         return ['s', r[1] * r[2]]
     if tag == 'brep':
@@ -142,6 +166,12 @@ def lit_classes(r, out, direct=False):
     tag = r[0]
     if tag == 'fnf':
         out.add('float-nonfinite')
+    elif tag == 'cx':
+        out.add('complex')
+        if isinstance(r[1], str) or isinstance(r[2], str):
+            out.add('complex-nonfinite')
+        if cx_signed_zero(r[1], r[2]):
+            out.add('complex-signed-zero')
     elif tag in ('srep', 'brep', 'pow10'):
         if len(repr(tx.build_lit(expand_lit(r)))) > LIMIT:
             out.add('long-int' if tag == 'pow10' else 'long-str')
@@ -167,6 +197,9 @@ def lit_classes(r, out, direct=False):
         for x in r[1]:
             lit_classes(x, out, direct and tag == 'tuple' and len(r[1]) > 1)
     elif tag == 'dict':
+        out.add('dict')
+        if dict_unsorted(r):
+            out.add('dict-unsorted')
         for k, v in r[1]:
             lit_classes(k, out)
             lit_classes(v, out)
@@ -174,6 +207,26 @@ def lit_classes(r, out, direct=False):
         steps_classes(r[2], out)
     elif tag == 'Spec':
         lit_classes(r[1], out)
+
+
+def _negzero(p):
+    return not isinstance(p, str) and p == 0 and math.copysign(1.0, p) < 0
+
+
+def cx_signed_zero(re, im):
+    """complex(re, im) has a negative-zero part, or a zero real part and a negative imaginary part: the numbers Python writes
+    as (-0+1j), (1-0j), -1.5j - expressions that evaluate to a complex number with another sign of zero"""
+    return _negzero(re) or _negzero(im) or (not isinstance(re, str) and re == 0
+                                            and (im == '-inf' or (not isinstance(im, str) and im < 0)))
+
+
+def dict_unsorted(r):
+    """the keys of the dict literal can be sorted, and the order in which the literal holds them is another one"""
+    keys = list(tx.build_lit(expand_lit(r)))
+    try:
+        return sorted(keys) != keys
+    except TypeError:
+        return False
 
 
 def steps_classes(steps, out):
@@ -201,9 +254,11 @@ def parts_classes(parts, out):
 
 
 SPECIALS = ['slice-nested-builtin', 'float-nonfinite', 'long-str', 'long-int', 'long-seq', 'long-nested-T',
-            'path-list-segment']
+            'path-list-segment', 'dict-unsorted', 'complex-nonfinite', 'complex-signed-zero']
 # (the two classes that cost most per case - 1000-item containers, 200-step nested expressions - at half the weight)
-SPECIAL_POOL = [None] * 26 + SPECIALS + [c for c in SPECIALS if c not in ('long-seq', 'long-nested-T')]
+SPECIAL_POOL = [None] * 20 + SPECIALS + [c for c in SPECIALS if c not in ('long-seq', 'long-nested-T')]
+# classes whose literal is, in half of the T expressions / Paths that carry it, handed to the Observer target first
+OBSERVED = ('dict-unsorted', 'complex-nonfinite', 'complex-signed-zero')
 BUILTINS = ['len', 'int', 'str', 'sorted']
 # sizes around the limit (both sides: an off-by-one in a limit shows there) and well beyond it
 LONG_SIZES = st.one_of(st.integers(LIMIT - 6, LIMIT + 12), st.sampled_from([1100, 1500, 2048, 3000]))
@@ -227,7 +282,53 @@ def gen_builtin_slice(draw):
     return ['slice', parts]
 
 
+# dict keys by family: the keys of one family can be sorted (so "not in sorted order" is defined for them)
+KEY_FAMILIES = [
+    [['s', x] for x in STRS],
+    [['i', n] for n in range(-5, 13)],
+    [['i', n] for n in range(-2, 6)] + [['f', 0.5], ['f', -1.25], ['f', 1e20], ['f', 2.5]],
+    [['tuple', [['i', a] for a in t]] for t in [(), (0,), (1,), (1, 2), (2, 1), (0, 5, 1), (2,)]],
+    [['bytes', b] for b in ['', 'a', 'ab', 'b', '\xff']],
+    [['b', False], ['b', True]],
+]
+MIXED_KEYS = [k for fam in KEY_FAMILIES[:2] + KEY_FAMILIES[3:5] for k in fam] + [['none'], ['f', 0.5], ['ell'], ['cx', 1.0, 2.5], ['fset', []]]
+CX_FINITE = [0.0, 1.0, -1.5, 2.5, 1e20]
+CX_NONFINITE = ['inf', '-inf', 'nan']
+
+
+def gen_complex(draw, cls=None):
+    pool = CX_FINITE + [-0.0] + CX_NONFINITE
+    parts = [draw(st.sampled_from(pool)), draw(st.sampled_from(pool))]
+    if cls == 'complex-nonfinite' and not any(isinstance(x, str) for x in parts):
+        parts[draw(st.integers(0, 1))] = draw(st.sampled_from(CX_NONFINITE))
+    if cls == 'complex-signed-zero' and not cx_signed_zero(parts[0], parts[1]):
+        # the three shapes Python itself spells as an expression with another value: (-0+1j), (1-0j), -1.5j
+        k = draw(st.integers(0, 2))
+        if k == 0:
+            parts[0] = -0.0
+        elif k == 1:
+            parts[1] = -0.0
+        else:
+            parts = [0.0, draw(st.sampled_from([-1.5, -1.5, '-inf']))]
+    return ['cx'] + parts
+
+
+def gen_unsorted_dict(draw, depth=1):
+    """a dict literal of 2-4 sortable keys held in another order than the sorted one; a value may be such a dict again"""
+    fam = draw(st.sampled_from(KEY_FAMILIES))
+    keys = draw(st.lists(st.sampled_from(fam), min_size=2, max_size=4, unique_by=repr))
+    built = [tx.build_lit(k) for k in keys]
+    if built == sorted(built):
+        keys = keys[::-1]
+    return ['dict', [[k, gen_unsorted_dict(draw, depth - 1) if depth > 0 and draw(st.integers(0, 3)) == 0 else gen_lit(draw, 0)]
+                     for k in keys]]
+
+
 def gen_special_lit(draw, cls):
+    if cls == 'dict-unsorted':
+        return gen_unsorted_dict(draw)
+    if cls in ('complex-nonfinite', 'complex-signed-zero'):
+        return gen_complex(draw, cls)
     if cls == 'slice-nested-builtin':
         return gen_builtin_slice(draw)
     if cls == 'float-nonfinite':
@@ -292,21 +393,39 @@ def gen_special(draw):
     return draw(st.sampled_from(SPECIAL_POOL))
 
 
+def observed_steps(draw, carrier, root):
+    """the carrier step applied to the Observer target of the battery (T.k(..) / T[..], below S: S.a.k(..) / S.a[..]), which
+    answers with what it received; optionally followed by a step that picks the arguments out of the answer"""
+    steps = ([['.', 'a']] if root == 'S' else []) + ([['.', 'k']] if carrier[0] == '(' else []) + [carrier]
+    if draw(st.integers(0, 2)) == 0:
+        steps.append(['[', ['i', draw(st.integers(1, 2 if carrier[0] == '(' else 1))]])
+    return steps
+
+
 def plant_in_steps(draw, steps, root, cls):
     lit = gen_special_lit(draw, cls)
     # (a slice that IS the index, or a direct member of an index tuple, is written with colons: not the nested class)
-    steps.insert(draw(st.integers(0, len(steps))), gen_carrier_step(draw, lit, root, cls != 'slice-nested-builtin'))
+    carrier = gen_carrier_step(draw, lit, root, cls != 'slice-nested-builtin')
+    if cls in OBSERVED and root != 'A' and draw(st.booleans()):
+        return observed_steps(draw, carrier, root)
+    steps.insert(draw(st.integers(0, len(steps))), carrier)
     if root == 'S' and steps[0][0] == '(':
         steps.insert(0, ['.', 'k'])       # S(...) on the bare root is the scope-assignment form
     return steps
 
 
-def plant_in_parts(draw, parts, cls):
+def plant_in_parts(draw, parts, cls, root=None):
+    """root: given by the roundtrip generator (whose Paths are evaluated), so that the literal can be shown to the Observer"""
     lit = gen_special_lit(draw, cls)
     if cls == 'path-list-segment' or (cls != 'long-nested-T' and draw(st.booleans())):
         part = ['P', lit]                 # (a T expression given to Path is a run of steps, never a plain segment)
     else:
-        part = ['T', [gen_carrier_step(draw, lit, 'T', cls != 'slice-nested-builtin')]]
+        carrier = gen_carrier_step(draw, lit, 'T', cls != 'slice-nested-builtin')
+        if cls in OBSERVED and root is not None and draw(st.booleans()):
+            # Path('k', T(..)) / Path(T[..]); below S: Path(S, 'a', 'k', T(..))
+            steps = observed_steps(draw, carrier, root)
+            return [['P', ['s', s_[1]]] if s_[0] == '.' else ['T', [s_]] for s_ in steps]
+        part = ['T', [carrier]]
     parts.insert(draw(st.integers(0, len(parts))), part)
     return parts
 
@@ -318,7 +437,9 @@ def gen_lit(draw, depth=2):
         for _ in range(draw(st.integers(6, 9))):
             r = [draw(st.sampled_from(['list', 'tuple', 'list'])), [r]]
         return r
-    k = draw(st.integers(0, 14))
+    k = draw(st.integers(0, 16))
+    if k == 15:
+        return gen_complex(draw)
     if k <= 1:
         return ['i', draw(st.integers(-5, 12))]
     if k <= 3:
@@ -346,6 +467,10 @@ def gen_lit(draw, depth=2):
         return ['fset', [['i', x] for x in draw(st.lists(st.integers(0, 3), max_size=1))]]
     if k == 12:
         return ['T', 'T', gen_steps(draw, draw(st.integers(0, 2)), 'T', depth - 1)]
+    if k == 16:
+        # a dict as a plain value, keys of one family or mixed, in the order drawn (sorted or not)
+        fam = draw(st.sampled_from(KEY_FAMILIES + [MIXED_KEYS, MIXED_KEYS]))
+        return ['dict', [[key, gen_lit(draw, depth - 1)] for key in draw(st.lists(st.sampled_from(fam), max_size=3, unique_by=repr))]]
     return ['list', [gen_lit(draw, depth - 1) for _ in range(draw(st.integers(0, 2)))]]
 
 
@@ -492,14 +617,16 @@ def gen_roundtrip(draw):
         root = draw(st.sampled_from(['T', 'T', 'S']))
         parts = gen_path_parts(draw)
         if special is not None:
-            parts = plant_in_parts(draw, parts, special)
+            parts = plant_in_parts(draw, parts, special, root)
         return {'kind': 'path', 'root': root, 'parts': _fix_s_call(root, parts)}
     return gen_t(draw, special)
 
 
 # -- structural equality of operation tuples ---------------------------------
 
-def ops_equal(a, b):
+def ops_equal(a, b, literal=True):
+    """literal=True: the two denote the same literal text (dict order, sign of zero).  literal=False: structural version of
+    Python's == (what Path.__eq__ / startswith go by): dicts as mappings, 0.0 == -0.0"""
     if isinstance(a, Path):
         a = a.path_t
     if isinstance(b, Path):
@@ -508,23 +635,30 @@ def ops_equal(a, b):
         if not (isinstance(a, TType) and isinstance(b, TType)):
             return False
         oa, ob = a.__ops__, b.__ops__
-        return oa[0] is ob[0] and ops_equal(oa[1:], ob[1:])
+        return oa[0] is ob[0] and ops_equal(oa[1:], ob[1:], literal)
     if isinstance(a, Path):
         a = a.path_t
     if isinstance(b, Path):
         b = b.path_t
     if isinstance(a, Spec) or isinstance(b, Spec):
-        return isinstance(a, Spec) and isinstance(b, Spec) and ops_equal(a.spec, b.spec)
+        return isinstance(a, Spec) and isinstance(b, Spec) and ops_equal(a.spec, b.spec, literal)
     if type(a) is not type(b):
         return False
     if isinstance(a, (tuple, list)):
-        return len(a) == len(b) and all(ops_equal(x, y) for x, y in zip(a, b))
+        return len(a) == len(b) and all(ops_equal(x, y, literal) for x, y in zip(a, b))
     if isinstance(a, dict):
-        return sorted(a, key=repr) == sorted(b, key=repr) and all(ops_equal(a[k], b[k]) for k in a)
+        # the same (key, value) pairs in the same order: a dict argument is handed to the callee as it is, and the callee
+        # sees the order (finding F106: the keys were rendered sorted)
+        if not literal:
+            return sorted(a, key=repr) == sorted(b, key=repr) and all(ops_equal(a[k], b[k], literal) for k in a)
+        return len(a) == len(b) and all(ops_equal(ka, kb) and ops_equal(va, vb)
+                                        for (ka, va), (kb, vb) in zip(a.items(), b.items()))
+    if isinstance(a, complex):
+        return ops_equal(a.real, b.real, literal) and ops_equal(a.imag, b.imag, literal)
     if isinstance(a, slice):
-        return ops_equal((a.start, a.stop, a.step), (b.start, b.stop, b.step))
+        return ops_equal((a.start, a.stop, a.step), (b.start, b.stop, b.step), literal)
     if isinstance(a, float):
-        return a == b or (a != a and b != b)
+        return (a == b and (not literal or math.copysign(1.0, a) == math.copysign(1.0, b))) or (a != a and b != b)
     return a == b
 
 
@@ -535,7 +669,23 @@ BATTERY = [
     ['obj', [['a', ['obj', [['b', ['i', 2]], ['k', ['tuple', [['i', 1], ['i', 2]]]]]]], ['b', ['i', 3]], ['k', ['dict', [['a', ['i', 1]]]]]]],
     ['s', 'hello'],
     ['i', 7],
+    ['observer'],
 ]
+
+
+class Observer(object):
+    """battery target whose callee `k` and whose item access answer with exactly what they received: the order of a dict
+    argument, of the keywords, the type of every literal shows in the outcome (canon_repr spells dicts in their own order)"""
+    __iter__ = None        # (not iterable: without this, iter() would fall back to __getitem__ and never stop)
+
+    def k(self, *args, **kwargs):
+        return ('k', args, kwargs)
+
+    def __getitem__(self, key):
+        return ('item', key)
+
+    def __repr__(self):
+        return 'Observer()'
 
 
 def canon_repr(v):
@@ -559,10 +709,12 @@ def outcome(target, spec, scope):
         return ('err', type(e).__name__, tuple(c.__name__ for c in type(e).__mro__[1:4]))
 
 
-def outcomes(spec):
+def outcomes(spec, observer=True):
+    """observer=False leaves the Observer target out (expressions without a dict / complex literal: the five data targets
+    decide; the sixth costs a seventh of the run)"""
     outs = []
-    for tr in BATTERY:
-        t = tg.build(tr).obj
+    for tr in BATTERY if observer else BATTERY[:-1]:
+        t = Observer() if tr == ['observer'] else tg.build(tr).obj
         scope = {'a': t, 'k': {'a': 1, 'b': [1, 2]}, 'b': [3, 4, 5]}
         outs.append(outcome(t, spec, scope))
     return outs
@@ -594,7 +746,11 @@ def check_roundtrip(recipe, ctx):
         r = repr(x)
     except Exception as e:
         raise Mismatch('repr-raises', '%r: %s: %s' % (recipe, type(e).__name__, e))
-    base = outcomes(x) if recipe['root'] != 'A' else None
+    obs = bool(classes & {'dict', 'complex'})
+    base = outcomes(x, obs) if recipe['root'] != 'A' else None
+    if base is not None and obs and base[-1][0] == 'ok':
+        # (distribution only: the Observer target was reached by every step, so its answer shows the literals)
+        ctx.label(*[c + '-observed' for c in sorted(classes) if c in OBSERVED])
     # --- eval(repr(x))
     try:
         y = eval(r, dict(EVAL_ENV))
@@ -609,8 +765,8 @@ def check_roundtrip(recipe, ctx):
     if not ops_equal(x, y):
         raise Mismatch('repr-different-object', 'repr %s denotes ops %r, original has %r'
                        % (r, _ops(y), _ops(x)))
-    if base is not None and outcomes(y) != base:
-        raise Mismatch('repr-different-outcome', 'repr %s evaluates differently: %r vs %r' % (r, outcomes(y), base))
+    if base is not None and outcomes(y, obs) != base:
+        raise Mismatch('repr-different-outcome', 'repr %s evaluates differently: %r vs %r' % (r, outcomes(y, obs), base))
     # --- pickle at every protocol
     for proto in range(0, pickle.HIGHEST_PROTOCOL + 1):
         try:
@@ -619,7 +775,7 @@ def check_roundtrip(recipe, ctx):
             raise Mismatch('pickle-raises', '%s protocol %d: %s: %s' % (r, proto, type(e).__name__, e))
         if type(z) is not type(x) or repr(z) != r or not ops_equal(x, z):
             raise Mismatch('pickle-different-object', '%s protocol %d -> %r (ops %r vs %r)' % (r, proto, z, _ops(z), _ops(x)))
-        if base is not None and proto in (2, pickle.HIGHEST_PROTOCOL) and outcomes(z) != base:
+        if base is not None and proto in (2, pickle.HIGHEST_PROTOCOL) and outcomes(z, obs) != base:
             raise Mismatch('pickle-different-outcome', '%s protocol %d' % (r, proto))
     ctx.outcome(r)
 
@@ -700,7 +856,7 @@ def check_seq(recipe, ctx):
         raise Mismatch('startswith', '%r.startswith(%r) is False' % (pq, p))
     if len(iq) and root == 'T':
         exp = len(ip) >= len(iq) and ops_equal(tuple((o, item_value(a)) for o, a in ip[:len(iq)]),
-                                               tuple((o, item_value(a)) for o, a in iq))
+                                               tuple((o, item_value(a)) for o, a in iq), literal=False)
         if bool(p.startswith(q)) != exp:
             raise Mismatch('startswith', '%r.startswith(%r) is %r, expected %r' % (p, q, p.startswith(q), exp))
     # immutability: none of the above changed p
@@ -826,14 +982,20 @@ SUBS = [
     Sub('roundtrip', check_roundtrip, gen=gen_roundtrip, quick=6000, thorough=20000,
         floors={'kind-path': 0.1, 'root-S': 0.1, 'root-A': 0.05,
                 # constructed classes (findings F77-F80); lowest share observed at seeds 1-3:
-                # .067 / .080 / .038 / .023 / .0127 / .0168 / .049
-                'slice-nested-builtin': 0.03, 'float-nonfinite': 0.04, 'long-str': 0.015, 'long-int': 0.012,
-                'long-seq': 0.006, 'long-nested-T': 0.008, 'path-list-segment': 0.025}),
+                # .051 / .075 / .029 / .027 / .0118 / .0178 / .053
+                'slice-nested-builtin': 0.028, 'float-nonfinite': 0.04, 'long-str': 0.015, 'long-int': 0.012,
+                'long-seq': 0.006, 'long-nested-T': 0.008, 'path-list-segment': 0.025,
+                # (finding F106) lowest share observed at seeds 1-3: .070 / .020 / .090 / .0187;
+                # -observed: the expression carrying the literal evaluated to the end on the Observer target
+                'dict-unsorted': 0.04, 'dict-unsorted-observed': 0.011,
+                'complex-nonfinite': 0.05, 'complex-nonfinite-observed': 0.01}),
     Sub('seq', check_seq, gen=gen_seq, quick=3000, thorough=10000,
         floors={'compose-ok': 0.02,
-                # lowest share observed at seeds 1-3: .045 / .067 / .028 / .028 / .0137 / .0083 / .045
+                # lowest share observed at seeds 1-3: .055 / .075 / .026 / .029 / .0073 / .018 / .040
                 'slice-nested-builtin': 0.02, 'float-nonfinite': 0.035, 'long-str': 0.015, 'long-int': 0.012,
-                'long-seq': 0.006, 'long-nested-T': 0.004, 'path-list-segment': 0.02}),
+                'long-seq': 0.004, 'long-nested-T': 0.004, 'path-list-segment': 0.02,
+                # (finding F106) .046 / .062
+                'dict-unsorted': 0.025, 'complex-nonfinite': 0.035}),
     Sub('index', check_index, enum=enum_index),
     fuzzrun.fuzz_sub('fuzz-roundtrip', 'hyp:c18:roundtrip', runs=30000, campaigns=4, replay_sub='roundtrip'),
 ]
